@@ -394,6 +394,22 @@ func (ts *TunnelSet) startFile(t *Tunnel) {
 		case "upload", "upload-dir":
 			err = nd.A.UploadFile(ctx, exitID, t.ftSrc, t.ftDst, opts, progress)
 			ts.endOpen(t)
+			if err != nil && strings.Contains(err.Error(), "timeout waiting for upload acknowledgement") {
+				// The client waits 30 s for the exit's confirmation once everything
+				// is sent. On a mesh slowed down by its other tunnels (slow reader,
+				// starved goroutines) the confirmation can take longer: the
+				// transfer itself is then judged by what arrives at the far end.
+				simrt.Probe("file_upload_confirmation_late")
+				for w := 0; w < 600; w++ {
+					if ts.compareTree(t, t.ftDst, 0, "uploaded file") == t.Up {
+						break
+					}
+					simrt.Sleep(time.Second)
+				}
+				if got := ts.compareTree(t, t.ftDst, 0, "uploaded file"); got == t.Up {
+					err = nil
+				}
+			}
 			if err == nil {
 				simrt.Probe("file_upload_done")
 				t.serverGot = ts.compareTree(t, t.ftDst, 0, "uploaded file")
